@@ -228,3 +228,98 @@ _cu0 = units
 
 def units():
     return _cu0() + more_units()
+
+
+# ---------------------------------------------------------------------------
+# C10: try-and-increment: the result is the first x >= start accepted by get_point_from_x (loop cut: step + exit), from_hash wiring
+def tai_units():
+    from symx import Interp, Path, CutDone, loops_of, run_iteration, for_parts, Cell, Obj
+    from scen import ScenUnit, guarded
+    us = []
+    for F, T in INST.items():
+        af = T["aff"]
+        q = af + "::try_and_increment"
+
+        def gen(tu, F=F, af=af, q=q):
+            f = tu.func(q)
+            loop = loops_of(f)[0]
+
+            def run(path):
+                calls = []
+
+                def gp(I_, f_, this, args):
+                    x, greater, checked = args
+                    found = I_.path.decide(("get_point_from_x", "accepts"), (1, 0))
+                    calls.append((x.val, I_.rv(greater), I_.rv(checked), found))
+                    if found:
+                        this.f["x"].val = x.val
+                        this.f["y"].val = Poly.var("root")
+                        this.f["infinity"].v = 0
+                    return found
+                gp.raw = True
+                d = RingDomain({F, "BigInt<256>", "BigInt<384>"}, consts=U.SHARED.get("consts"), obj_contracts={af + "::get_point_from_x": gp})
+                I = Interp(tu, d)
+                I.path = path
+                I.scopes = [f.record.qname]
+                this = I.new_object(f.record.qname)
+                start = I.new_object(F)
+                start.val = Poly.var("start")
+                g = I.path.decide(("arg", "greater"), (0, 1))
+                names = {}
+
+                def cut(I_, n, env):
+                    xs = [v for k, v in env.items() if hasattr(v, "type") and getattr(v, "type", None) == F and v is not start]
+                    xloc = xs[0]
+                    base_ok = (xloc.val == Poly.var("start"))
+                    X = Poly.var("X")
+                    xloc.val = X
+                    went = run_iteration(I_, n, env)
+                    obs = [("base: x == start", "ok" if base_ok else "fail", "", None)]
+                    c = calls[-1]
+                    obs.append(("candidate tested is the current x, with the caller's sign flag, validating", "ok" if (c[0] == X and c[1] == g and c[2] == 1) else "fail", repr(c), None))
+                    if went:
+                        obs.append(("rejected: x' == x + 1 (no candidate skipped)", "ok" if xloc.val == X + 1 else "fail", repr(xloc.val), None))
+                    else:
+                        obs.append(("accepted: result x == current x", "ok" if this.f["x"].val == X else "fail", repr(this.f["x"].val), None))
+                    raise CutDone(obs)
+                I.loop_cuts[loop["id"]] = cut
+                try:
+                    I.call(f, this, [start, Cell(g)])
+                except CutDone as c_:
+                    return c_.obs
+                return [("cut", "fail", "loop not reached", None)]
+            yield "step/exit", guarded(run)
+        us.append(ScenUnit(q + ": first accepted x >= start", ["C10"], gen, targets=[q], contracts_used=[af + "::get_point_from_x (RING unit)", F + "::add, copy"],
+                           assumes=["termination of try-and-increment (density of squares) is not claimed"]))
+        q2 = af + "::from_hash"
+
+        def gen2(tu, F=F, af=af, q2=q2):
+            f = tu.func(q2)
+
+            def run(path):
+                calls = []
+
+                def tai(I_, f_, this, args):
+                    calls.append((args[0].val, I_.rv(args[1])))
+                tai.raw = True
+                d = RingDomain({F, "BigInt<256>", "BigInt<384>"}, consts=U.SHARED.get("consts"), obj_contracts={af + "::try_and_increment": tai})
+                I = Interp(tu, d)
+                I.path = path
+                I.scopes = [f.record.qname]
+                this = I.new_object(f.record.qname)
+                from symx import Ptr, Arr
+                buf = Ptr(Arr("uint8_t", [Cell(0) for _ in range(96)]), 0)
+                I.call(f, this, [Cell(buf)])
+                top = [dd for (lab, dd) in path.trace if isinstance(lab, tuple) and lab[0] == "hash_reduce"]
+                ok = len(calls) == 1 and repr(calls[0][0]).startswith("hash_reduce#") and calls[0][1] == (top[-1] if top else None)
+                return [("from_hash == try_and_increment(hash_reduce(read_big_endian(hash)), flag returned by hash_reduce)", "ok" if ok else "fail", repr(calls), None)]
+            yield "wiring", guarded(run)
+        us.append(ScenUnit(q2 + ": deterministic function of the hash bytes", ["C10"], gen2, targets=[q2], contracts_used=[F + "::read_big_endian, hash_reduce (BV units)", af + "::try_and_increment"]))
+    return us
+
+
+_cu1 = units
+
+
+def units():
+    return _cu1() + tai_units()
